@@ -116,10 +116,11 @@ inductive Op where
   | scope (t i : Nat)                                      -- new Scope(span[i])
   | close (t j : Nat)                                      -- destroy scope[j]
   | dump (t : Nat)                                         -- the whole stack of thread t
+  | conc (t rounds : Nat)                                  -- fresh OS threads run attach/scope/detach rounds truly concurrently
 
 def Op.thread : Op → Nat
   | .set t .. | .setm t .. | .mk t .. | .mk1 t .. | .get t .. | .rset t .. | .rget t .. | .attach t ..
-  | .detach t .. | .drop t .. | .cur t | .span t | .scope t .. | .close t .. | .dump t => t
+  | .detach t .. | .drop t .. | .cur t | .span t | .scope t .. | .close t .. | .dump t | .conc t .. => t
 
 inductive Obs where
   | ctx (id : CtxId)
@@ -131,6 +132,7 @@ inductive Obs where
   | span (o : Option Nat)
   | scope (j : Nat) (id : CtxId)
   | stack (s : Stack)
+  | concOk
   deriving DecidableEq, Repr
 
 structure State where
@@ -214,6 +216,9 @@ def step (s : State) : Op → Option (State × Obs)
       | _ => none
     else none
   | .dump t => if t < s.nthreads then some (s, .stack (s.stacks t)) else none
+  -- the concurrent rounds run on fresh threads (their own, empty stacks), are balanced, and keep no context:
+  -- by `thread_isolation` / `older_unaffected` nothing of it is visible afterwards
+  | .conc t rounds => if t < s.nthreads ∧ rounds ≤ 50 then some (s, .concOk) else none
 
 /-- a whole program, with the observation of every step -/
 def run (s : State) : List Op → Option (State × List Obs)
